@@ -15,7 +15,9 @@ import (
 
 	"github.com/cloudwego/hertz/pkg/app/server/binding"
 	"github.com/cloudwego/hertz/pkg/common/hlog"
+	"github.com/cloudwego/hertz/pkg/common/test/mock"
 	"github.com/cloudwego/hertz/pkg/protocol"
+	reqI "github.com/cloudwego/hertz/pkg/protocol/http1/req"
 	"github.com/cloudwego/hertz/pkg/route/param"
 
 	"verif/harness/lib/mon"
@@ -196,6 +198,7 @@ type reqSpec struct {
 	stream    bool                           // the body is a stream of unknown length (a chunked request on a streaming server)
 	only      string                         // "" = Bind; otherwise the single-source entry point BindQuery/BindHeader/BindForm/BindPath
 	emptyJSON bool                           // JSON media type, empty body
+	wire      bool                           // the request is parsed from its bytes by a server that keeps header names as sent; the client writes cookie: and content-type: in lower case
 	broken    int                            // >0: the streamed JSON body fails (the peer goes away) after broken-1 bytes / before its end
 	ctCase    int                            // spelling of the media type: 0 lower case, 1 mixed case, 2 upper-case type with a parameter
 	vals      map[string]map[string][]string // source -> key -> values
@@ -601,11 +604,38 @@ func genReqSpec(r *mon.Rand, fields []fieldSpec) reqSpec {
 	if r.Chance(3) {
 		rs.ctCase = 1 + r.Intn(2)
 	}
+	rs.wire = r.Chance(4) && !rs.stream
+	for _, f := range fields {
+		if _, ok := f.tags["header"]; ok {
+			// (with names kept as sent, which spelling a header tag matches is the application's business)
+			rs.wire = false
+		}
+	}
 	return rs
 }
 
+// throughWire serialises the request and parses it again the way a server with
+// DisableHeaderNamesNormalizing does; field names are case-insensitive, the client of this
+// request writes them in lower case.
+func throughWire(req *protocol.Request) *protocol.Request {
+	body := req.Body()
+	req.Header.SetRequestURIBytes(req.URI().RequestURI())
+	req.Header.SetHostBytes(req.URI().Host())
+	req.Header.SetContentLength(len(body))
+	raw := string(req.Header.Header()) + string(body)
+	for _, n := range []string{"Cookie", "Content-Type", "Content-Length", "Host"} {
+		raw = strings.Replace(raw, "\r\n"+n+": ", "\r\n"+strings.ToLower(n)+": ", 1)
+	}
+	out := &protocol.Request{}
+	out.Header.DisableNormalizing()
+	if err := reqI.Read(out, mock.NewZeroCopyReader(raw)); err != nil {
+		panic(fmt.Sprintf("harness: cannot parse own request %q: %v", raw, err))
+	}
+	return out
+}
+
 func (rs reqSpec) desc() string {
-	return fmt.Sprintf("%v multipart=%v stream-of-unknown-length=%v media-type-spelling=%d json-media-type-with-empty-body=%v stream-fails-after=%d entry-point=Bind%s", rs.vals, rs.multipart, rs.stream, rs.ctCase, rs.emptyJSON, rs.broken-1, rs.only)
+	return fmt.Sprintf("%v multipart=%v stream-of-unknown-length=%v media-type-spelling=%d json-media-type-with-empty-body=%v stream-fails-after=%d parsed-from-wire-with-lower-case-names=%v entry-point=Bind%s", rs.vals, rs.multipart, rs.stream, rs.ctCase, rs.emptyJSON, rs.broken-1, rs.wire, rs.only)
 }
 
 func typeOf(fields []fieldSpec) reflect.Type {
@@ -628,6 +658,9 @@ func typeOf(fields []fieldSpec) reflect.Type {
 
 func bindOnce(b binding.Binder, t reflect.Type, fields []fieldSpec, rs reqSpec) (map[string]string, error) {
 	req, ps := buildReq(rs, fields)
+	if rs.wire && rs.only == "" {
+		req = throughWire(req)
+	}
 	v := reflect.New(t)
 	var err error
 	func() {
